@@ -249,6 +249,7 @@ func Gen(r *sim.Rng, kind string) (*sim.WorldSpec, *Meta) {
 		return p, false
 	}
 
+	usedLocalHooks, usedImportedHooks := map[string]bool{}, map[string]bool{}
 	nMethods := r.Range(2, 5)
 	if kind == "misfit" {
 		nMethods = 1
@@ -397,13 +398,31 @@ func Gen(r *sim.Rng, kind string) (*sim.WorldSpec, *Meta) {
 			h := &HookMeta{DstPtr: r.Chance(2, 3), SrcPtr: r.Bool(), RetErr: mm.RetErr && r.Chance(2, 3), Extras: len(mm.Extras) > 0 && r.Chance(2, 3)}
 			h.Imported = useHooksPkg && !mm.Local && r.Chance(1, 2)
 			fn := fmt.Sprintf("%s%s", map[string]string{"pre": "Pre", "post": "Post"}[which], mm.Name)
-			h.Site = fn
-			text := hookText(fn, fn, which, h, dstT, srcT, mm.Extras, "")
+			// now and then a local and an imported hook share their base name
+			mine, other := usedLocalHooks, usedImportedHooks
+			if h.Imported {
+				mine, other = usedImportedHooks, usedLocalHooks
+			}
+			var cands []string
+			for n := range other {
+				if !mine[n] {
+					cands = append(cands, n)
+				}
+			}
+			sort.Strings(cands)
+			if len(cands) > 0 && r.Chance(1, 2) {
+				fn = sim.Pick(r, cands)
+			}
+			mine[fn] = true
+			h.Name = fn
 			if h.Imported {
 				h.Name = "hooks." + fn
+			}
+			h.Site = h.Name
+			text := hookText(fn, h.Site, which, h, dstT, srcT, mm.Extras, "")
+			if h.Imported {
 				hooksPkg.WriteString(text)
 			} else {
-				h.Name = fn
 				localHooks.WriteString(text)
 			}
 			return h
